@@ -42,7 +42,7 @@ Theorem C23_load_batch : forall batch,
   forall rs, In rs batch ->
     In (load_full (fst rs) (snd rs)) (load_batch batch) /\
     Inv (fst rs) (load_full (fst rs) (snd rs)) /\
-    sd_count (load_full (fst rs) (snd rs)) = Some (length (abstract (fst rs) (snd rs))).
+    sd_count (load_full (fst rs) (snd rs)) = Some (Z.of_nat (length (abstract (fst rs) (snd rs)))).
 Proof. exact load_batch_own. Qed.
 Print Assumptions C23_load_batch.
 
@@ -66,7 +66,7 @@ Print Assumptions C23_iteration_len.
 
 Theorem C23_count : forall rows sd, Inv rows sd ->
   let r := do_count rows sd in
-  fst r = length (abstract rows sd) /\ Inv rows (snd r) /\ abstract rows (snd r) = abstract rows sd.
+  fst r = Z.of_nat (length (abstract rows sd)) /\ Inv rows (snd r) /\ abstract rows (snd r) = abstract rows sd.
 Proof. exact do_count_spec. Qed.
 Print Assumptions C23_count.
 
@@ -96,6 +96,22 @@ Theorem C23_remove : forall x rows sd, Inv rows sd ->
   Inv rows (do_remove x rows sd) /\ (forall y, In y (abstract rows (do_remove x rows sd)) <-> In y (abstract rows sd) /\ y <> x).
 Proof. exact do_remove_spec. Qed.
 Print Assumptions C23_remove.
+
+(* one-to-many collections (g.students): load_full, do_copy, do_count, do_is_empty are the same code and the theorems above apply;
+   add of an item whose reference attribute is loaded (Hlink = what db_reverse_add established when the item was loaded): *)
+Theorem C23_add_o2m : forall loaded x rows sd, Inv rows sd -> loaded x = true ->
+  (In x rows -> In x (sd_items sd) \/ In x (sd_removed sd)) ->
+  Inv rows (do_add_o loaded x rows sd) /\ (forall y, In y (abstract rows (do_add_o loaded x rows sd)) <-> In y (abstract rows sd) \/ y = x).
+Proof. exact do_add_o_spec. Qed.
+Print Assumptions C23_add_o2m.
+
+(* remove on a one-to-many collection with the tail skipped (proposed repair; the code as it is double-counts: Findings/C23.v) *)
+Theorem C23_remove_o2m_repaired : forall loaded x rows sd, Inv rows sd -> loaded x = true ->
+  (In x rows -> In x (sd_items sd) \/ In x (sd_removed sd)) ->
+  Inv rows (do_remove_o_fixed loaded x rows sd) /\
+  (forall y, In y (abstract rows (do_remove_o_fixed loaded x rows sd)) <-> In y (abstract rows sd) /\ y <> x).
+Proof. exact do_remove_o_fixed_spec. Qed.
+Print Assumptions C23_remove_o2m_repaired.
 
 (* hence: two consistent views of the same abstract collection, whatever loading paths (and flushes) produced them, give the
    same iteration contents, len, count, membership answers and is_empty *)
